@@ -3533,3 +3533,74 @@ func c02TaskContext(c *Ctx) {
 		ca.run(T, Aliases(ctxParam), 0)
 	}
 }
+
+// c02DeferredResultWrites (R3): a deferred closure that assigns the enclosing
+// function's named error result runs after the return value was set.  Each
+// such assignment must keep a failure: it stores a non-nil value, or a value
+// built from the current result (errors.Join(err, x), cmp.Or(err, x), a
+// wrapper of err), or it executes only where the current result was tested
+// nil (`if err == nil { err = x }`).  `defer func() { err = region.Start() }()`
+// replaces the copy's error by nil.
+func c02DeferredResultWrites(c *Ctx, f *ssa.Function) {
+	const R3 = "C02.R3.error-surfacing"
+	errIdx := ErrResultIndex(f.Signature)
+	if errIdx < 0 {
+		return
+	}
+	cells := map[*ssa.Alloc]bool{}
+	for _, r := range Returns(f) {
+		if a := cellOf(r.Results[errIdx]); a != nil {
+			cells[a] = true
+		}
+	}
+	if len(cells) == 0 {
+		return
+	}
+	n := 0
+	AllInstrs(f, func(in ssa.Instruction) {
+		d, ok := in.(*ssa.Defer)
+		if !ok {
+			return
+		}
+		mc, ok := d.Call.Value.(*ssa.MakeClosure)
+		if !ok {
+			return
+		}
+		g := mc.Fn.(*ssa.Function)
+		for j, bnd := range mc.Bindings {
+			a, isAlloc := bnd.(*ssa.Alloc)
+			if !isAlloc || !cells[a] {
+				continue
+			}
+			fv := g.FreeVars[j]
+			loads := map[ssa.Value]bool{}
+			for _, ref := range *fv.Referrers() {
+				if ld, isLd := ref.(*ssa.UnOp); isLd && ld.Op == token.MUL {
+					for al := range Aliases(ld) {
+						loads[al] = true
+					}
+				}
+			}
+			nilE, _, _ := NilTests(g, loads)
+			for _, ref := range *fv.Referrers() {
+				st, isSt := ref.(*ssa.Store)
+				if !isSt || st.Addr != ssa.Value(fv) {
+					continue
+				}
+				n++
+				how := ""
+				switch {
+				case ErrNilStatus(st.Val, 0) == NonNil:
+					how = "it stores a non-nil error"
+				case loads[st.Val] || loads[strip(st.Val)] || derivesFromAny(st.Val, loads, 0):
+					how = "the stored value is built from the current result"
+				case len(nilE) > 0 && MustPass(st, newCut().Edges(nilE...)):
+					how = "it executes only where the current result was found nil"
+				}
+				c.Check(R3, fmt.Sprintf("%s|deferred-result-write#%d", FnName(g), n), st.Pos(), how != "",
+					ifelse(how != "", "the deferred assignment of the enclosing function's error result keeps a failure: "+how,
+						"the deferred closure overwrites the error result of "+FnName(f)+" after the return value was set: a failure of the function body is replaced by "+describe(st.Val)+", which may be nil (the call reports success, or a waiting task is never released)"))
+			}
+		}
+	})
+}
